@@ -272,4 +272,21 @@ CHECKS = {
         "timeout": {"quick": 1500, "thorough": 14400},
         "assumptions": ["template integers stay within int32 (getPatch goes through float64 as upstream does; only two pod fields admit larger values)"] + COMMON_ASSUMPTIONS,
     },
+    "C17": {
+        "level": "fault_enumeration",
+        "rule": "world = built-in StatefulSet with 1-3 matchLabels keys (optionally plus a matchExpressions requirement), 0-5 ControllerRevisions of the set, "
+                "0-2 unrelated revisions, 0-3 pods, 0-2 claims, Advanced object absent / present with the same spec / present with another spec. The "
+                "uninterrupted Upgrade is run on one copy to learn its N API calls; then for each chosen position (quick: 4 drawn, thorough: all) x "
+                "7 fault kinds (server error, timeout not applied, timeout applied, crash before / after, real conflict = the object is touched just "
+                "before an update, real not-found = the object is removed just before the call) a fresh copy is upgraded by a caller that re-GETs the "
+                "built-in set before every attempt and retries until it is gone; 1-3 of the attempts are faulted. One evaluation = one (world, "
+                "position, kind). Oracle: no write on pods, claims, unrelated revisions; the built-in set is deleted only with orphan propagation and "
+                "only when an Advanced set with the converted spec and status exists and every selected revision has lost all matchLabels keys and "
+                "carries the marker (checked at the instant of the delete call); the retries terminate; the final state equals that of the "
+                "uninterrupted run. Non-trivial = fault at or after the first write with >= 2 revisions; distinct = (world, position, kind)",
+        "legs": [{"test": "TestC17", "quick": {"checks": 600}, "thorough": {"checks": 48000, "shards": 16}}],
+        "floors": {"fault:conflict": 0.05, "fault:crashAfter": 0.05},
+        "assumptions": ["selectors always carry at least one matchLabels key (for expression-only selectors the helper removes nothing; see DESIGN O1)",
+                        "the caller re-reads the built-in set before each retry, as the helper's documentation demands"] + COMMON_ASSUMPTIONS,
+    },
 }
